@@ -194,7 +194,25 @@ def run_case(case):
     return rec
 
 
+NULL_REPLACED = ("the null at the end of the existing prefix was replaced by a new container that holds the created "
+                 "tail: a node that existed before did not stay unchanged (everything else about this creation is "
+                 "as the property demands)")
+
+
 def verdict(rec, case):
+    """The literal frame clause ("every node that existed before is unchanged") cannot be met when the existing
+    prefix of the path ends at a null with segments still to go: the path can only be made to resolve by putting
+    a container in the null's place (repair a092fd7 does that; before it the null was overwritten by the VALUE
+    and the path did not resolve either).  Every other clause is checked first; if all of them hold, the replaced
+    null itself is reported - and attributed to the listed finding F10c - rather than silently allowed."""
+    rec["nullrep"] = False
+    v = verdict_core(rec, case)
+    if v is None and rec.get("nullrep"):
+        return NULL_REPLACED
+    return v
+
+
+def verdict_core(rec, case):
     E = mutgen.init_env()
     text, path, value, fmt, mode = case
     shadow, p = rec["shadow"], rec["p"]
@@ -217,6 +235,7 @@ def verdict(rec, case):
                 return ("the null at the end of the existing prefix was replaced by something that is not a new "
                         "container (the tail was not built beneath it)")
             nullrep = True
+            rec["nullrep"] = True
     grew = False
     for cid, (kind, items) in shadow.kids.items():
         obj = [x for x in shadow.keep if id(x) == cid][0]
@@ -475,7 +494,12 @@ def _set_prefix(case, obs):
 
 
 # F10b null_in_prefix is repaired (fix 09e1e7a): a path that does not resolve after a set through a null is a violation
-FINDING_PREDS = {"set_member_created_by_set_value": _set_prefix}
+def _null_replaced(case, obs):
+    rec = run_case(case)
+    return rec["kind"] == "run" and rec.get("verdict") == NULL_REPLACED
+
+
+FINDING_PREDS = {"set_member_created_by_set_value": _set_prefix, "null_placeholder_replaced": _null_replaced}
 
 CORPUS = [
     ("{a: {b: 1}}", "a.c.d", "v", "DEFAULT", "set"),
